@@ -179,7 +179,8 @@ def run(tier):
     if tier == 'thorough':
         pairs = [[a, b] for a in A for b in A]
     else:
-        pairs = [[a, b] for a in A for b in A if a[0] == b[0] and (a[1] == b[1] or a[2] == b[2])]
+        files = lambda c: {c[1]} if c[0] == 'sv' else {c[1], c[2]}
+        pairs = [[a, b] for a in A for b in A if files(a) & files(b)]          # same schema or document, either function
     go('ordered pairs (%s)' % ('all of A x A' if tier == 'thorough' else 'calls sharing a schema or a document'), work,
        [('pair', pairs[i::64]) for i in range(64)])
     # ---- triples over calls sharing a cache key
